@@ -170,7 +170,13 @@ func (fc *FuncCtx) call(res ssa.Value, c *ssa.CallCommon, st *State, reach strin
 		_ = mc
 	}
 	key := "funcval:" + fc.funcValKey(c.Value)
-	if con := eng.byKey[key]; con != nil {
+	con := eng.byKey[key]
+	if con == nil {
+		if i := strings.LastIndex(key, "#"); i >= 0 {
+			con = eng.byKey["funcval:"+key[i:]] // a contract keyed by the variable's name only
+		}
+	}
+	if con != nil {
 		return fc.applyContract(con, nil, sig, append([]TV{fv}, args...), true, st, reach, res, key)
 	}
 	eng.warn("dynamic call %s without contract: all heaps havoc'd (in %s)", key, fc.fnName)
@@ -366,6 +372,9 @@ func funcValKeyOf(fn *ssa.Function, v ssa.Value) string {
 		if fa, ok := x.X.(*ssa.FieldAddr); ok {
 			st := mustDeref(fa.X.Type()).Underlying().(*types.Struct)
 			return mustDeref(fa.X.Type()).String() + "." + st.Field(fa.Field).Name()
+		}
+		if al, ok := x.X.(*ssa.Alloc); ok && al.Comment != "" {
+			return fn.String() + "#" + al.Comment
 		}
 		if fv, ok := x.X.(*ssa.FreeVar); ok {
 			return fn.String() + "#" + fv.Name()
@@ -1198,7 +1207,14 @@ func (e *Engine) callMods(caller *ssa.Function, c *ssa.CallCommon, out map[strin
 		con = e.byKey[callee.String()]
 	} else {
 		// dynamic call through a function value
-		if cc := e.byKey["funcval:"+funcValKeyOf(caller, c.Value)]; cc != nil {
+		fk := "funcval:" + funcValKeyOf(caller, c.Value)
+		cc := e.byKey[fk]
+		if cc == nil {
+			if i := strings.LastIndex(fk, "#"); i >= 0 {
+				cc = e.byKey["funcval:"+fk[i:]]
+			}
+		}
+		if cc != nil {
 			if !cc.Pure {
 				out["$wm"] = true
 				e.contractMods(cc, nil, c.Signature(), out)
